@@ -137,15 +137,17 @@ func certainlyNonNil(ev ssa.Value, at *ssa.BasicBlock, depth int) bool {
 			}
 		}
 	case *ssa.Phi:
-		if len(x.Edges) == 0 {
-			return false
-		}
+		all := len(x.Edges) > 0
 		for i, e := range x.Edges {
 			if !certainlyNonNil(e, x.Block().Preds[i], depth+1) {
-				return false
+				all = false
+				break
 			}
 		}
-		return true
+		if all {
+			return true
+		}
+		// otherwise the φ itself may have been tested (below)
 	}
 	// a sentinel error of another package (io.ErrUnexpectedEOF, io.EOF, …) is never nil
 	if l, ok := ev.(*ssa.UnOp); ok && l.Op == token.MUL {
